@@ -1,4 +1,4 @@
-(* C15 proofs.  Statements are restated in Props.v. *)
+(* C15 proofs (repaired code).  Statements are restated in Props.v. *)
 From Slsk Require Import Base.Tac.
 From SlskGen Require Import RetryGen.
 From Slsk Require Import C15.Spec C15.Model.
@@ -15,70 +15,45 @@ Proof. intros. rewrite flat_map_app. simpl. rewrite app_nil_r. reflexivity. Qed.
 Lemma retry_delay_cases : forall a d, retry_delay a = Some d -> d = RETRY_TIMEOUT_NET_ERROR \/ d = RETRY_TIMEOUT_NON_EXISTING_USER.
 Proof. intros a d H. destruct a; simpl in H; inv H; auto. Qed.
 
-Lemma retry_delay_none : forall a, retry_delay a = None -> a = AExists.
-Proof. destruct a; simpl; intros; try discriminate; auto. Qed.
+Ltac usplit u := destruct u as [p fl s q w a dq at_ cf]; cbn [present flags st queue wpc armed deq att conf] in *.
 
 (* ------------------------------------------------------------------ sends mirror the processed changes *)
-Definition pending (p : pc) : list skind :=
-  match p with PCancelRetry prev => if Nat.eqb prev 0 then [] else [SRem] | _ => [] end.
-
-Definition inv_sends (u : user) : Prop :=
-  (present u = false -> wpc u = PGone) /\ att u ++ pending (wpc u) = flat_map expected (deq u).
-
-Ltac usplit u := destruct u as [p fl s q w a dq at_]; cbn [present flags st queue wpc armed deq att] in *.
-
-Ltac gs := match goal with G : _ = false -> _ |- _ => first [exact G | (let E := fresh in intros E; specialize (G E); discriminate)] end.
+Definition inv_sends (u : user) : Prop := att u = flat_map expected (deq u).
 
 Lemma step_sends : forall u ev, inv_sends u -> inv_sends (fst (step u ev)).
 Proof.
-  intros u ev (G & I). unfold inv_sends. usplit u.
-  destruct ev; cbn [step fst snd present flags st queue wpc armed deq att enqueue].
-  - (* Track *) destruct p; cbn; [split; [discriminate|exact I]|].
-    rewrite (G eq_refl) in I. cbn in *. split; [discriminate|exact I].
-  - (* Untrack *) destruct p; cbn; split; auto; discriminate.
-  - (* WorkerStep *)
-    destruct w; cbn [fst]; try (split; [gs|exact I]).
-    + (* PIdle: dequeue *)
-      unfold dequeue. cbn [present flags st queue wpc armed deq att]. destruct q as [|r q]; [split; [gs|exact I]|].
-      cbn in I. rewrite app_nil_r in I.
-      destruct (Nat.eqb (apply_req r fl) 0) eqn:N; cbn [armed].
-      * destruct a; cbn [present flags st queue wpc armed deq att].
-        -- split; [gs|]. cbn. rewrite flat_map_snoc, <- I. cbn. rewrite N. reflexivity.
-        -- unfold after_cancel, exit_check, set_pc. cbn [present flags st queue wpc armed deq att].
-           destruct (Nat.eqb fl 0) eqn:P0; [destruct q|]; cbn; (split; [gs|]);
-             rewrite ?app_nil_r, flat_map_snoc, <- I; cbn; rewrite N, ?P0; rewrite ?app_nil_r; reflexivity.
-      * destruct (Nat.eqb fl 0 || Nat.eqb (req_flag r) 0) eqn:B; cbn; (split; [gs|]);
-          rewrite ?app_nil_r, flat_map_snoc, <- I; cbn; rewrite N, B; rewrite ?app_nil_r; reflexivity.
-    + (* PCancelRetry *)
-      unfold after_cancel, exit_check, set_pc. cbn [present flags st queue wpc armed deq att pending] in *.
-      destruct (Nat.eqb prev 0) eqn:E0; [destruct q|]; cbn [present flags st queue wpc armed deq att pending fst]; (split; [gs|]);
-        rewrite ?app_nil_r in *; exact I.
-    + (* PSendRemove *)
-      unfold finish_remove, exit_check, set_pc. cbn in *. destruct q; cbn; (split; [gs|exact I]).
-  - (* ServerReply *)
-    destruct w; cbn [fst]; try (split; [gs|exact I]).
-    unfold attempt_end. destruct (retry_delay _); cbn; (split; [gs|exact I]).
-  - (* SendFails *)
-    destruct w; cbn [fst]; try (split; [gs|exact I]).
-    all: try (unfold finish_remove, exit_check, set_pc; cbn in *; destruct q; cbn; (split; [gs|exact I])).
-    all: try (unfold attempt_end; cbn; (split; [gs|exact I])).
-  - (* TimerFires *) destruct a; cbn; (split; [gs|exact I]).
-  - (* DoneCb *) destruct w; cbn; try (split; [gs|exact I]). split; [reflexivity|]. cbn in I. exact I.
-  - (* ServerClosed *)
-    destruct w; cbn; try (split; [gs|exact I]);
-      (split; [gs|exact I]).
+  intros u ev I. unfold inv_sends in *. usplit u.
+  destruct ev; cbn [step fst snd present flags st queue wpc armed deq att conf enqueue].
+  - destruct p; cbn; exact I.
+  - destruct p; cbn; exact I.
+  - destruct w; cbn [fst]; try exact I.
+    + unfold dequeue. cbn [present flags st queue wpc armed deq att conf]. destruct q as [|r q]; [exact I|].
+      destruct (Nat.eqb (apply_req r fl) 0) eqn:N.
+      * unfold after_cancel, exit_check, set_pc. cbn [present flags st queue wpc armed deq att conf].
+        destruct (Nat.eqb fl 0) eqn:P0; [destruct q|]; cbn;
+          rewrite flat_map_snoc, <- I; cbn; rewrite N, ?P0; rewrite ?app_nil_r; reflexivity.
+      * destruct (Nat.eqb fl 0 || Nat.eqb (req_flag r) 0) eqn:B; cbn;
+          rewrite flat_map_snoc, <- I; cbn; rewrite N, B; rewrite ?app_nil_r; reflexivity.
+    + unfold finish_remove, exit_check, set_pc. cbn. destruct q; cbn; exact I.
+  - destruct w; cbn [fst]; try exact I.
+    unfold attempt_end. destruct (retry_delay _); cbn; exact I.
+  - destruct w; cbn [fst]; try exact I.
+    all: try (unfold finish_remove, exit_check, set_pc; cbn; destruct q; cbn; exact I).
+    all: try (unfold attempt_end; cbn; exact I).
+  - destruct a; cbn; exact I.
+  - exact I.
+  - exact I.
 Qed.
 
 Lemma run_from_sends : forall es u, inv_sends u -> inv_sends (run_from u es).
 Proof. induction es; intros; simpl; auto using step_sends. Qed.
 
-Lemma sends_mirror : forall es, att (run es) ++ pending (wpc (run es)) = flat_map expected (deq (run es)).
-Proof. intros. apply (run_from_sends es init). split; reflexivity. Qed.
+Lemma sends_mirror : forall es, att (run es) = flat_map expected (deq (run es)).
+Proof. intros. apply (run_from_sends es init). reflexivity. Qed.
 
 (* ------------------------------------------------------------------ one-step facts *)
 Ltac brk H := cbn in H; repeat match type of H with context [match ?x with _ => _ end] => destruct x eqn:?; cbn in H end.
 
-(* TRACKED is only ever reported when the server confirmed that the user exists *)
 Lemma tracked_only_on_exists : forall u ev, In (OState Tracked) (snd (step u ev)) ->
   ev = ServerReply RExists /\ wpc u = PWaitReply.
 Proof.
@@ -86,7 +61,6 @@ Proof.
     intuition (try discriminate; try congruence).
 Qed.
 
-(* a retry is only ever scheduled with one of the two documented delays, after a failed attempt *)
 Lemma arm_only_after_failure : forall u ev d, In (OArm d) (snd (step u ev)) ->
   (ev = SendFails /\ wpc u = PSendAdd /\ d = RETRY_TIMEOUT_NET_ERROR) \/
   (ev = ServerReply RNotExists /\ wpc u = PWaitReply /\ d = RETRY_TIMEOUT_NON_EXISTING_USER) \/
@@ -97,106 +71,212 @@ Proof.
     match goal with X : OArm _ = OArm _ |- _ => inv X end; auto 10.
 Qed.
 
-(* ------------------------------------------------------------------ a retry timer is only armed while a reason remains *)
-Definition inv_retry (u : user) : Prop :=
-  (forall d, armed u = Some d -> Nat.eqb (flags u) 0 = false /\ (d = RETRY_TIMEOUT_NET_ERROR \/ d = RETRY_TIMEOUT_NON_EXISTING_USER)) /\
-  (wpc u = PSendAdd \/ wpc u = PWaitReply -> Nat.eqb (flags u) 0 = false).
-
-Ltac ir := match goal with
-  | |- (forall d, _ = Some d -> _) /\ _ => split; [intros ? X; try discriminate X; auto | intros [X|X]; try discriminate X; auto]
-  end.
-
-Lemma step_retry : forall u ev, inv_retry u -> inv_retry (fst (step u ev)).
+Lemma absent_silent : forall u ev, wpc u = PGone -> snd (step u ev) = [].
 Proof.
-  intros u ev (A & B). unfold inv_retry. usplit u.
-  destruct ev; cbn [step fst snd present flags st queue wpc armed deq att enqueue].
-  - destruct p; cbn; ir.
-  - destruct p; cbn; ir.
-  - destruct w; cbn [fst]; try (cbn; ir; fail).
-    + unfold dequeue. cbn [present flags st queue wpc armed deq att]. destruct q as [|r q]; [cbn; ir|].
-      destruct (Nat.eqb (apply_req r fl) 0) eqn:N; cbn [armed].
-      * destruct a; cbn [present flags st queue wpc armed deq att]; [cbn; ir|].
-        unfold after_cancel, exit_check, set_pc. cbn [present flags st queue wpc armed deq att].
-        destruct (Nat.eqb fl 0); [destruct q|]; cbn; ir.
-      * destruct (Nat.eqb fl 0 || Nat.eqb (req_flag r) 0); cbn; ir; destruct (A _ X); auto.
-    + unfold after_cancel, exit_check, set_pc. cbn [present flags st queue wpc armed deq att].
-      destruct (Nat.eqb prev 0); [destruct q|]; cbn; ir.
-    + unfold finish_remove, exit_check, set_pc. cbn. destruct q; cbn; ir.
-  - destruct w; cbn [fst]; try (cbn; ir; fail).
-    unfold attempt_end. destruct (retry_delay _) eqn:R; cbn; ir.
-    inv X. split; [apply B; auto|]. eapply retry_delay_cases; eauto.
-  - destruct w; cbn [fst]; try (cbn; ir; fail).
-    + unfold finish_remove, exit_check, set_pc. cbn. destruct q; cbn; ir.
-    + unfold attempt_end. destruct (retry_delay ASendFail) eqn:R; cbn; ir.
-      inv X. split; [apply B; auto|]. eapply retry_delay_cases; eauto.
-  - destruct a; cbn; ir.
-  - destruct w; cbn; ir.
-  - destruct w; cbn; ir.
+  intros u ev H. usplit u. subst. destruct ev; cbn; try (destruct p; reflexivity); try (destruct a; reflexivity); reflexivity.
 Qed.
 
-Lemma run_from_retry : forall es u, inv_retry u -> inv_retry (run_from u es).
-Proof. induction es; intros; simpl; auto using step_retry. Qed.
+(* ------------------------------------------------------------------ the whole-trace invariant *)
+(* reasons of the entry = abstract set; shape of an absent entry; flags at the send points; state at the idle point *)
+Definition queue_reasons (q : list req) (fl : nat) : nat := fold_left (fun fl r => apply_req r fl) q fl.
+
+Definition good (R : nat) (u : user) : Prop :=
+  queue_reasons (queue u) (flags u) = R /\
+  (present u = false -> flags u = 0 /\ st u = Untracked /\ queue u = [] /\ armed u = None /\ wpc u = PGone) /\
+  (present u = true -> wpc u <> PGone) /\
+  (wpc u = PSendRemove -> flags u = 0) /\
+  (wpc u = PSendAdd \/ wpc u = PWaitReply -> flags u <> 0) /\
+  (forall d, armed u = Some d -> flags u <> 0 /\ (d = RETRY_TIMEOUT_NET_ERROR \/ d = RETRY_TIMEOUT_NON_EXISTING_USER)) /\
+  (wpc u = PIdle -> present u = true /\
+     (flags u = 0 -> st u = Untracked /\ queue u <> [] /\ conf u = false) /\
+     (flags u <> 0 -> (st u = Tracked /\ conf u = true) \/
+                      (st u = RetryPending /\ conf u = false /\ (armed u <> None \/ In (RAdd 0) (queue u))))).
+
+Lemma queue_reasons_snoc : forall q fl r, queue_reasons (q ++ [r]) fl = apply_req r (queue_reasons q fl).
+Proof. intros. unfold queue_reasons. rewrite fold_left_app. reflexivity. Qed.
+
+Ltac gsplit := unfold good; cbn [present flags st queue wpc armed deq att conf]; repeat apply conj.
+Ltac triv := intros; try discriminate; try tauto; auto;
+  try match goal with H : _ \/ _ |- _ => destruct H; discriminate end.
+
+Lemma eqb0 : forall n, Nat.eqb n 0 = true -> n = 0.
+Proof. intros n H. apply Nat.eqb_eq in H. exact H. Qed.
+Lemma eqb0f : forall n, Nat.eqb n 0 = false -> n <> 0.
+Proof. intros n H. apply Nat.eqb_neq in H. exact H. Qed.
+
+Lemma good_absent : forall dq at_, good 0 (absent dq at_).
+Proof. intros. unfold good, absent; cbn. repeat split; triv. Qed.
+
+Lemma good_init : good 0 init.
+Proof. apply good_absent. Qed.
+
+Lemma idle_grow : forall (fl : nat) (s : tst) (cf : bool) (a : option Z) (q : list req) (r : req),
+  ((fl = 0 -> s = Untracked /\ q <> [] /\ cf = false) /\
+   (fl <> 0 -> (s = Tracked /\ cf = true) \/ (s = RetryPending /\ cf = false /\ (a <> None \/ In (RAdd 0) q)))) ->
+  ((fl = 0 -> s = Untracked /\ q ++ [r] <> [] /\ cf = false) /\
+   (fl <> 0 -> (s = Tracked /\ cf = true) \/ (s = RetryPending /\ cf = false /\ (a <> None \/ In (RAdd 0) (q ++ [r]))))).
+Proof.
+  intros fl s cf a q r (G2 & G3). split.
+  - intros Z. destruct (G2 Z) as (A & B & C). repeat split; auto. destruct q; discriminate.
+  - intros Z. destruct (G3 Z) as [A|(A & B & [C|C])]; auto. right. repeat split; auto. right. apply in_or_app. auto.
+Qed.
+
+Lemma good_calls : forall R u f, good R u ->
+  good (Nat.lor R f) (fst (step u (Track f))) /\ good (Nat.ldiff R f) (fst (step u (Untrack f))).
+Proof.
+  intros R u f (GR & GA & GP & GS & GT & GM & GI). usplit u.
+  cbn [step fst snd present flags st queue wpc armed deq att conf enqueue].
+  destruct p; cbn [fst]; unfold enqueue; cbn [present flags st queue wpc armed deq att conf].
+  - assert (X : forall r, w = PIdle ->
+      true = true /\ (fl = 0 -> s = Untracked /\ q ++ [r] <> [] /\ cf = false) /\
+      (fl <> 0 -> s = Tracked /\ cf = true \/ s = RetryPending /\ cf = false /\ (a <> None \/ In (RAdd 0) (q ++ [r])))).
+    { intros r E. destruct (GI E) as (G1 & G23). split; [auto|]. apply idle_grow. exact G23. }
+    split.
+    + gsplit; try (apply X); try assumption; try (intros; discriminate). rewrite queue_reasons_snoc. rewrite GR. reflexivity.
+    + gsplit; try (apply X); try assumption; try (intros; discriminate). rewrite queue_reasons_snoc. rewrite GR. reflexivity.
+  - destruct (GA eq_refl) as (A & B & C & D & E). subst fl s q a w. cbn in GR. subst R. split.
+    + gsplit; [unfold queue_reasons; cbn [fold_left apply_req]; reflexivity|triv|triv|triv|triv|triv|].
+      intros _. split; [reflexivity|]. split; triv. intros; repeat split; auto; discriminate.
+    + rewrite Nat.ldiff_0_l. gsplit; triv.
+Qed.
+
+(* the worker leaves the flags = 0 branch: it returns (entry dropped) or goes back to the queue *)
+Lemma good_exit : forall R q dq at_ w,
+  queue_reasons q 0 = R ->
+  good R (exit_check (mkU true 0 Untracked q w None dq at_ false)).
+Proof.
+  intros R q dq at_ w GR. unfold exit_check, set_pc. cbn. destruct q.
+  - cbn in GR. subst R. apply good_absent.
+  - gsplit; [exact GR|triv|triv|triv|triv|triv|].
+    intros _. split; [reflexivity|]. split; [intros; repeat split; auto; discriminate|]. intros Z; contradiction.
+Qed.
+
+Lemma good_worker : forall R u, good R u -> good R (fst (step u WorkerStep)).
+Proof.
+  intros R u (GR & GA & GP & GS & GT & GM & GI). usplit u.
+  cbn [step fst snd present flags st queue wpc armed deq att conf].
+  destruct w; cbn [fst].
+  - (* PIdle *)
+    destruct (GI eq_refl) as (G1 & G2 & G3). subst p.
+    unfold dequeue. cbn [present flags st queue wpc armed deq att conf].
+    destruct q as [|r q]; [gsplit; triv|]. cbn in GR.
+    destruct (Nat.eqb (apply_req r fl) 0) eqn:N.
+    + apply eqb0 in N. rewrite N in *. unfold after_cancel. cbn [present flags st queue wpc armed deq att conf].
+      destruct (Nat.eqb fl 0) eqn:P0.
+      * apply eqb0 in P0. destruct (G2 P0) as (A & B & C). subst s cf. apply good_exit. exact GR.
+      * apply eqb0f in P0. gsplit; [exact GR|triv|triv|triv|triv|triv|triv].
+    + apply eqb0f in N.
+      destruct (Nat.eqb fl 0 || Nat.eqb (req_flag r) 0) eqn:B.
+      * gsplit; [exact GR|triv|triv|triv|triv| |triv].
+        intros d E. destruct (GM d E) as (_ & D). auto.
+      * apply orb_false_iff in B. destruct B as (B1 & B2). apply eqb0f in B1. apply eqb0f in B2.
+        gsplit; [exact GR|triv|triv|triv|triv| |].
+        -- intros d E. destruct (GM d E) as (_ & D). auto.
+        -- intros _. split; [reflexivity|]. split; [intros Z; contradiction|]. intros _.
+           destruct (G3 B1) as [A|(A & C & [D|D])]; auto.
+           right. repeat split; auto. right. destruct D as [D|D]; auto. subst r. cbn in B2. contradiction.
+  - (* PSendRemove *)
+    pose proof (GS eq_refl) as F0. subst fl. unfold finish_remove. cbn [fst].
+    assert (P : p = true). { destruct p; auto. destruct (GA eq_refl) as (_ & _ & _ & _ & X). discriminate. }
+    subst p. destruct a as [d|]; [destruct (GM d eq_refl) as (X & _); contradiction|].
+    apply good_exit. exact GR.
+  - (* PSendAdd *)
+    unfold set_pc. cbn. gsplit; [exact GR|triv|triv|triv| |exact GM|triv].
+    intros _. apply GT. auto.
+  - gsplit; triv.
+  - gsplit; triv.
+Qed.
+
+Lemma good_attempt_end : forall R u at0, good R u -> wpc u = PSendAdd \/ wpc u = PWaitReply ->
+  good R (fst (attempt_end u at0)).
+Proof.
+  intros R u at0 (GR & GA & GP & GS & GT & GM & GI) W. usplit u.
+  pose proof (GT W) as F.
+  assert (P : p = true). { destruct p; auto. destruct (GA eq_refl) as (_ & _ & _ & _ & X). destruct W; congruence. }
+  subst p. unfold attempt_end. destruct (retry_delay at0) eqn:RD; cbn [fst present flags st queue wpc armed deq att conf].
+  - gsplit; [exact GR|triv|triv|triv|triv| |].
+    + intros d E. inv E. split; auto. eapply retry_delay_cases; eauto.
+    + intros _. split; [reflexivity|]. split; [intros Z; contradiction|]. intros _. right. repeat split; auto. left. discriminate.
+  - gsplit; [exact GR|triv|triv|triv|triv|exact GM|].
+    intros _. split; [reflexivity|]. split; [intros Z; contradiction|]. auto.
+Qed.
+
+Lemma good_other : forall R u ev, good R u ->
+  match ev with Track _ | Untrack _ | WorkerStep => True | _ => good (spec_step R ev) (fst (step u ev)) end.
+Proof.
+  intros R u ev G. destruct ev; auto.
+  - (* ServerReply *)
+    cbn [spec_step step]. destruct (wpc u) eqn:W; cbn [fst]; auto. apply good_attempt_end; auto.
+  - (* SendFails *)
+    cbn [spec_step step]. destruct (wpc u) eqn:W; cbn [fst]; auto.
+    + pose proof (good_worker R u G) as H. cbn [step] in H. rewrite W in H. unfold finish_remove in *. cbn in *. exact H.
+    + apply good_attempt_end; auto.
+  - (* TimerFires *)
+    destruct G as (GR & GA & GP & GS & GT & GM & GI). usplit u. cbn [spec_step step].
+    destruct a as [d|]; cbn [fst present flags st queue wpc armed deq att conf]; [|gsplit; triv].
+    destruct (GM d eq_refl) as (F & _). cbn [fst].
+    gsplit; [rewrite queue_reasons_snoc; rewrite GR; cbn; apply Nat.lor_0_r| |triv|triv|triv|triv|].
+    + intros E. destruct (GA E) as (_ & _ & _ & X & _). discriminate.
+    + intros E. destruct (GI E) as (G1 & G2 & G3). split; [auto|]. split; [intros Z; contradiction|].
+      intros _. destruct (G3 F) as [A|(A & C & D)]; auto. right. repeat split; auto. right. apply in_or_app. right. left. reflexivity.
+  - (* ServerClosed *) cbn. apply good_absent.
+Qed.
+
+Lemma step_good : forall R u ev, good R u -> good (spec_step R ev) (fst (step u ev)).
+Proof.
+  intros R u ev G. destruct ev.
+  - exact (proj1 (good_calls R u f G)).
+  - exact (proj2 (good_calls R u f G)).
+  - exact (good_worker R u G).
+  - exact (good_other R u (ServerReply r) G).
+  - exact (good_other R u SendFails G).
+  - exact (good_other R u TimerFires G).
+  - exact (good_other R u DoneCb G).
+  - exact (good_other R u ServerClosed G).
+Qed.
+
+Lemma run_from_good : forall es R u, good R u -> good (fold_left spec_step es R) (run_from u es).
+Proof. induction es; intros; simpl; auto using step_good. Qed.
+
+Lemma run_good : forall es, good (spec_run es) (run es).
+Proof. intros. apply run_from_good, good_init. Qed.
+
+(* ------------------------------------------------------------------ the property theorems *)
+Lemma no_call_lost : forall es, reasons (run es) = spec_run es.
+Proof. intros es. exact (proj1 (run_good es)). Qed.
+
+Lemma closed_drops_all : forall es, let u := run (es ++ [ServerClosed]) in
+  present u = false /\ flags u = 0 /\ st u = Untracked /\ queue u = [] /\ armed u = None /\ wpc u = PGone /\
+  (forall ev, snd (step u ev) = []).
+Proof.
+  intros es. cbn zeta. rewrite run_snoc. cbn. repeat split. intros ev. apply absent_silent. reflexivity.
+Qed.
 
 Lemma retry_only_with_reason : forall es d, armed (run es) = Some d ->
   flags (run es) <> 0 /\ (d = RETRY_TIMEOUT_NET_ERROR \/ d = RETRY_TIMEOUT_NON_EXISTING_USER).
+Proof. intros es d H. destruct (run_good es) as (_ & _ & _ & _ & _ & GM & _). exact (GM d H). Qed.
+
+Lemma settled_state : forall es, let u := run es in
+  (present u = false -> st u = Untracked /\ flags u = 0 /\ spec_run es = 0) /\
+  (wpc u = PIdle -> queue u = [] ->
+     flags u = spec_run es /\ spec_run es <> 0 /\
+     (st u = Tracked <-> conf u = true) /\
+     (armed u = None -> st u = Tracked)).
 Proof.
-  intros es d H. assert (I : inv_retry (run es)). { apply run_from_retry. split; [discriminate|intros [X|X]; discriminate X]. }
-  destruct I as (A & _). destruct (A d H) as (F & D). split; auto. intros Z. rewrite Z in F. discriminate.
+  intros es. cbn zeta. pose proof (no_call_lost es) as NL. destruct (run_good es) as (GR & GA & _ & _ & _ & _ & GI).
+  split.
+  - intros P. destruct (GA P) as (A & B & C & _). repeat split; auto. rewrite <- NL. unfold reasons. rewrite C, A. reflexivity.
+  - intros W Q. destruct (GI W) as (_ & G2 & G3).
+    assert (F : flags (run es) = spec_run es). { rewrite <- NL. unfold reasons. rewrite Q. reflexivity. }
+    assert (NZ : flags (run es) <> 0). { intros Z. destruct (G2 Z) as (_ & X & _). contradiction. }
+    split; [exact F|]. split; [rewrite <- F; exact NZ|]. rewrite Q in G3. split.
+    + destruct (G3 NZ) as [(A & B)|(A & B & _)]; split; intros X; auto; rewrite X in *; try discriminate.
+    + intros AN. destruct (G3 NZ) as [(A & B)|(A & B & [C|C])]; auto; [contradiction|destruct C].
 Qed.
 
-(* ------------------------------------------------------------------ the server connection closes *)
-Lemma closed_drops_partial : forall es, (forall prev, wpc (run es) <> PCancelRetry prev) ->
-  let u := run (es ++ [ServerClosed]) in
-  armed u = None /\ (wpc u = PDying \/ wpc u = PDone \/ wpc u = PGone) /\
-  snd (step u WorkerStep) = [] /\
-  wpc (run (es ++ [ServerClosed; WorkerStep; DoneCb])) = PGone.
-Proof.
-  intros es H. cbn zeta.
-  replace (es ++ [ServerClosed; WorkerStep; DoneCb]) with (((es ++ [ServerClosed]) ++ [WorkerStep]) ++ [DoneCb])
-    by (rewrite <- !app_assoc; reflexivity).
-  rewrite !run_snoc.
-  destruct (run es) as [p fl s q w a dq at_]. cbn in *.
-  destruct w; cbn; try (exfalso; eapply H; reflexivity); repeat split; auto.
-Qed.
-
-(* a worker that is being cancelled, has finished, or has no entry never sends anything *)
-Lemma dead_worker_silent : forall u ev, wpc u = PDying \/ wpc u = PDone \/ wpc u = PGone ->
-  snd (step u ev) = [].
-Proof.
-  intros u ev H. usplit u. destruct ev; cbn; try (destruct p; reflexivity); try (destruct a; reflexivity);
-    destruct H as [H|[H|H]]; subst; reflexivity.
-Qed.
-
-(* ------------------------------------------------------------------ witnesses *)
-(* F18: the worker has returned (flags = 0, queue empty), its done-callback has not run yet: the next track call is lost *)
-Definition f18_history : list event :=
-  [Track 1; WorkerStep; WorkerStep; ServerReply RExists; Untrack 1; WorkerStep; WorkerStep; Track 2; DoneCb; WorkerStep].
-
-Lemma no_call_lost_refuted : spec_run f18_history = 2 /\ present (run f18_history) = false /\ flags (run f18_history) = 0 /\
-  att (run f18_history) = [SAdd; SRem].
-Proof. repeat split. Qed.
-
-(* F18b: the server connection closes while the worker waits for the cancelled retry task: it survives and goes on *)
-Definition f18b_history : list event :=
-  [Track 1; WorkerStep; WorkerStep; ServerReply RNotExists; Untrack 1; Track 4; WorkerStep; ServerClosed;
-   WorkerStep; SendFails; WorkerStep; SendFails].
-
-Lemma closed_drops_refuted : spec_run f18b_history = 0 /\ present (run f18b_history) = true /\ flags (run f18b_history) = 4 /\
-  armed (run f18b_history) = Some RETRY_TIMEOUT_NET_ERROR /\ att (run f18b_history) = [SAdd; SRem; SAdd].
-Proof. repeat split. Qed.
-
-(* ------------------------------------------------------------------ calls are queued in order; the worker takes them in order *)
+(* calls are queued in order; the worker takes them in order *)
 Lemma call_enqueued : forall u f,
   (present u = true -> queue (fst (step u (Track f))) = queue u ++ [RAdd f] /\ queue (fst (step u (Untrack f))) = queue u ++ [RRem f]) /\
   (present u = false -> let u' := fst (step u (Track f)) in
      present u' = true /\ queue u' = [RAdd f] /\ flags u' = 0 /\ wpc u' = PIdle /\ fst (step u (Untrack f)) = u).
 Proof. intros u f. usplit u. split; intros E; subst; cbn; auto. Qed.
-
-Lemma dequeue_fifo : forall u r q0, wpc u = PIdle -> queue u = r :: q0 ->
-  let u' := fst (step u WorkerStep) in queue u' = q0 /\ flags u' = apply_req r (flags u).
-Proof.
-  intros u r q0 P Q. usplit u. subst. cbn. unfold dequeue. cbn.
-  destruct (Nat.eqb (apply_req r fl) 0); [destruct a; [cbn; auto|]|].
-  - unfold after_cancel, exit_check, set_pc. cbn. destruct (Nat.eqb fl 0); [destruct q0|]; cbn; auto.
-  - destruct (Nat.eqb fl 0 || Nat.eqb (req_flag r) 0); cbn; auto.
-Qed.
